@@ -18,6 +18,7 @@ EXPLANATION = (
     "command line value parser tries int before float on the raw token; parse_filter handles str / Mapping / iterable."
     ' The string form of a filter is tokenised at white space only (no second round of quote / escape processing).'
     ' (g) What cursor[i:j] / iter(cursor) hands out restarts from the stored id list on every iteration; a value token is JSON-decoded only behind _is_json_like.'
+    ' The $exists pre-filter of groupby is keyed by the grouping keys as given, not by their prefix-stripped copies (C07-c); int() before float() on the raw token in whichever function casts it (C07-d); (i) every sub-command tells an empty selection from no selection by identity (C07-i); (j) no pairwise zip of the token list (C07-j).'
 )
 UNDECIDED = "Equivalence of all spellings, CLI casting for every token and exactness of the partition are value-level and not decided."
 
